@@ -346,6 +346,38 @@ theorem bp4_xor4_is_fold (a b c d : V2) :
       [a, b, c, d].foldr (fun x acc => (bp4v_xor2 (.ofV2 x) (.ofV2 acc)).toV2) ⟨false, false⟩ := by
   rw [bp4_xor4_spec, bp4_xor_fold]
 
+/-! ## the same for the array storage format (complete tables of the real `_mv_*`), and agreement of the formats for any length -/
+theorem ofCode_code (v : V3) : V3.ofCode v.code = v := by
+  rcases v with ⟨a, b, c⟩; cases a <;> cases b <;> cases c <;> decide
+
+/-- array storage format: one application of the complete table of the real 2-operand array operator -/
+def mvBin (t : Nat) (x acc : V3) : V3 := V3.ofCode (tab t (x.code + 8 * acc.code))
+
+theorem mv_and_fold (xs : List V3) : specAnd xs = xs.foldr (mvBin mv_and2) V3.one := by
+  induction xs with
+  | nil => rfl
+  | cons x xs ih => rw [specAnd_cons, List.foldr_cons, ← ih, mvBin, mv_and2_spec, ofCode_code]
+theorem mv_or_fold (xs : List V3) : specOr xs = xs.foldr (mvBin mv_or2) V3.zero := by
+  induction xs with
+  | nil => rfl
+  | cons x xs ih => rw [specOr_cons, List.foldr_cons, ← ih, mvBin, mv_or2_spec, ofCode_code]
+theorem mv_xor_fold (xs : List V3) : specXor xs = xs.foldr (mvBin mv_xor2) V3.zero := by
+  induction xs with
+  | nil => rfl
+  | cons x xs ih => rw [specXor_cons, List.foldr_cons, ← ih, mvBin, mv_xor2_spec, ofCode_code]
+
+/-- both storage formats, any number of operands: folding the real array table and folding the real bit-parallel
+    expression give the same value -/
+theorem formats_agree_fold_and (xs : List V3) :
+    xs.foldr (mvBin mv_and2) V3.one = xs.foldr (fun x acc => (bp8v_and2 (.ofV3 x) (.ofV3 acc)).toV3) V3.one := by
+  rw [← mv_and_fold, ← bp8_and_fold]
+theorem formats_agree_fold_or (xs : List V3) :
+    xs.foldr (mvBin mv_or2) V3.zero = xs.foldr (fun x acc => (bp8v_or2 (.ofV3 x) (.ofV3 acc)).toV3) V3.zero := by
+  rw [← mv_or_fold, ← bp8_or_fold]
+theorem formats_agree_fold_xor (xs : List V3) :
+    xs.foldr (mvBin mv_xor2) V3.zero = xs.foldr (fun x acc => (bp8v_xor2 (.ofV3 x) (.ofV3 acc)).toV3) V3.zero := by
+  rw [← mv_xor_fold, ← bp8_xor_fold]
+
 /-- non-vacuity / sanity: RISE and FALL give a positive pulse under AND in either order and grouping -/
 example : specAnd [⟨true, false, true⟩, ⟨false, true, true⟩, V3.one] = ⟨false, false, true⟩ := by decide
 
